@@ -764,20 +764,28 @@ def judge(rec: dict) -> tuple[str, str]:
         if not lower[v] <= tr[v]:
             return "missing", f"{var_name(a, v)} lacks {sorted(lower[v] - tr[v])}"
 
-    def extras(extra_edges: list) -> list:
-        up = closure(vs, must + may + extra_edges, ign_ax, t0, pt)
-        return [(v, sorted(tr[v] - t0[v] - up[v])) for v in sorted(judged)
-                if not tr[v] <= t0[v] | up[v]]
-    ex = extras([])
+    br = [(u, v) for u in ax_vars for v in ax_vars if u < v and src_ax[u] & src_ax[v] & pt]
+
+    def extras(bridged: bool, f2: bool) -> list:
+        up = closure(vs, must + may + (br if bridged else []), ign_ax, t0, pt)
+        out = []
+        for v in sorted(judged):
+            allowed = t0[v] | up[v]
+            if f2:
+                for u, w in bc:
+                    if w == v:
+                        allowed = allowed | up[u]
+            if not tr[v] <= allowed:
+                out.append((v, sorted(tr[v] - allowed)))
+        return out
+    ex = extras(False, False)
     if ex:
         det = "; ".join(f"{var_name(a, v)} got {t}" for v, t in ex[:4])
-        br = [(u, v) for u in ax_vars for v in ax_vars
-              if u < v and src_ax[u] & src_ax[v] & pt]
-        if not extras(br):
+        if not extras(True, False):
             return "extra_via_shared_tag", det
-        if not extras(bc):
+        if not extras(False, True):
             return "extra_einsum_bcast_redn", det
-        if not extras(br + bc):
+        if not extras(True, True):
             return "extra_via_shared_tag+einsum_bcast_redn", det
         return "extra", det
     if "c" in rec:
@@ -825,14 +833,25 @@ def judge_raised(rec: dict) -> tuple[str, str]:
     src_ax = {v: (t0[v] if v in ax_vars else set()) for v in vs}
     judged = vs if rec["redn"] else ax_vars
 
-    def conflict(extra_edges: list) -> bool:
-        up = closure(vs, must + may + extra_edges, ign_ax, t0, pt)
-        return any(set(g) <= t0[v] | up[v] for v in judged for g in rec["groups"])
-    if conflict([]):
-        return "ok", ""
     br = [(u, v) for u in ax_vars for v in ax_vars if u < v and src_ax[u] & src_ax[v] & pt]
-    if conflict(br + bc):
+
+    def conflict(bridged: bool, f2: bool) -> bool:
+        up = closure(vs, must + may + (br if bridged else []), ign_ax, t0, pt)
+        for v in judged:
+            allowed = t0[v] | up[v]
+            if f2:
+                for u, w in bc:
+                    if w == v:
+                        allowed = allowed | up[u]
+            if any(set(g) <= allowed for g in rec["groups"]):
+                return True
+        return False
+    if conflict(False, False):
+        return "ok", ""
+    if conflict(True, False):
         return "unique_error_via_shared_tag", rec["raised"]
+    if conflict(False, True):
+        return "unique_error_einsum_bcast_redn", rec["raised"]
     return "unexpected_unique_error", rec["raised"]
 
 
